@@ -8,6 +8,9 @@
 //! (session, serial). Histories are random op sequences (updates, notifies,
 //! steps, reconnects with all kinds of initial client state, new sessions,
 //! serial jumps across the u32 wrap, updates while a response is suspended).
+//! A second family of histories (`c06_big`) runs the same driver and the same
+//! oracle over large data sets, large diffs and single very large PDUs, for
+//! every path that depends on the size of a response.
 //!
 //! Oracle (from the statement): after every `Client::step()` that returned
 //! `Ok`, replay the (action, payload) log the target was handed on the
@@ -36,6 +39,10 @@ use tokio::task::JoinHandle;
 #[path = "c06_keys.rs"]
 mod c06_keys;
 use c06_keys::{has_maxlen_neighbours, run_laws, RefTargets};
+
+#[path = "c06_big.rs"]
+mod c06_big;
+use c06_big::{BigKind, BigPlan};
 
 //------------ target --------------------------------------------------------
 
@@ -107,6 +114,8 @@ enum Op {
     NewSession { keep_data: bool },
     SerialJump,
     UpdateDuringResponse { yields: u8, notify: bool, changes: u8 },
+    /// an update of a large data set (histories of `c06_big` only)
+    Big(BigKind),
 }
 
 impl Op {
@@ -119,6 +128,7 @@ impl Op {
             Op::NewSession { .. } => "X",
             Op::SerialJump => "J",
             Op::UpdateDuringResponse { .. } => "D",
+            Op::Big(_) => "B",
         }
     }
 }
@@ -139,6 +149,8 @@ struct Cfg {
     first_session: u16,
     /// reduced sizes for the slow instruments (Miri)
     light: bool,
+    /// a history over large data sets (`c06_big`)
+    big: Option<BigPlan>,
     ops: Vec<Op>,
 }
 
@@ -246,13 +258,25 @@ fn gen_cfg(seed: u64, max_ops: u64, light: bool) -> Cfg {
         first_serial,
         first_session: rng.next_u32() as u16,
         light,
+        big: None,
         ops,
     }
 }
 
 fn cfg_json(cfg: &Cfg) -> Value {
+    let large = match &cfg.big {
+        Some(p) => json!({
+            "matrix_index": p.index,
+            "negotiated_version": p.version,
+            "size_class": p.class,
+            "payload_octets_aimed_at": p.target_octets,
+            "shape": format!("{:?}", p.shape),
+        }),
+        None => Value::Null,
+    };
     json!({
         "history_seed": cfg.seed,
+        "large_data": large,
         "client_initial_version": cfg.v_c,
         "old_cache_cap": cfg.cap,
         "client_pipe": cfg.c_buf,
@@ -606,6 +630,28 @@ impl<'a> Driver<'a> {
         self.source.commit(snap, new_session);
     }
 
+    /// One update of a large data set (two commits for a flap).
+    fn do_big_update(&mut self, kind: &BigKind) {
+        let plan = match &self.cfg.big {
+            Some(p) => p.clone(),
+            None => return,
+        };
+        let cur = self.source.current();
+        let sets = c06_big::big_next(&cur.data, kind, &plan, &mut self.rng);
+        let mut prev: Data = cur.data.clone();
+        for data in sets {
+            let what = Self::describe_change(&prev, &data);
+            let octets = c06_big::data_octets(&data, plan.version);
+            let snap = self.new_snap(data.clone(), false, false);
+            self.trace.push(format!(
+                "large update {:?} -> {}:{} ({}; {} items, about {} octets of payload PDUs under version {}; timing {:?})",
+                kind, snap.session, snap.serial, what, snap.data.len(), octets, plan.version, snap.timing
+            ));
+            self.source.commit(snap, false);
+            prev = data;
+        }
+    }
+
     fn junk(&mut self) -> Data {
         match self.rng.below(3) {
             0 => Data::default(),
@@ -665,7 +711,9 @@ impl<'a> Driver<'a> {
             }
             ConnKind::NoState => (None, self.junk()),
         };
-        self.refs = RefTargets::from_data(&data);
+        if self.cfg.big.is_none() {
+            self.refs = RefTargets::from_data(&data);
+        }
         self.cdata = data;
         self.cdata_version = neg;
         let (c_end, mb_c) = tokio::io::duplex(self.cfg.c_buf);
@@ -854,12 +902,19 @@ impl<'a> Driver<'a> {
             "serial"
         };
         let states = obs.states.clone();
+        let big = self.cfg.big.is_some();
         let step_desc = |applied: &[Applied]| -> Value {
             let mut log_text: Vec<String> = Vec::new();
+            // a large history is regenerated from its seed; its detail names
+            // the differing items literally and keeps the rest short
+            let cap = if big { 16 } else { 400 };
             for a in applied {
                 log_text.push(format!("apply(reset={}, timing=({},{},{}))", a.reset, a.timing.refresh, a.timing.retry, a.timing.expire));
-                for (action, payload) in a.items.iter().take(400) {
-                    log_text.push(format!("{} {}", if matches!(action, Action::Announce) { "announce" } else { "withdraw" }, render_item(&from_lib(payload))));
+                for (action, payload) in a.items.iter().take(cap) {
+                    log_text.push(format!("{} {}", if matches!(action, Action::Announce) { "announce" } else { "withdraw" }, short(render_item(&from_lib(payload)))));
+                }
+                if a.items.len() > cap {
+                    log_text.push(format!("... {} more items", a.items.len() - cap));
                 }
             }
             json!({
@@ -870,7 +925,10 @@ impl<'a> Driver<'a> {
                 "source_states_during_step": states.iter().map(|s| format!("{}:{}", s.0, s.1)).collect::<Vec<_>>(),
                 "update_during_response": udr_hit,
                 "target_log": log_text,
-                "previous_data": prev.render(),
+                "previous_data": if big { prev.render_bounded(8) } else { prev.render() },
+                "payload_pdus_in_response": tap.payload_pdus,
+                "payload_octets_in_response": tap.payload_octets,
+                "longest_payload_pdu": tap.max_payload_pdu,
             })
         };
         // ---- the snapshot named by End of Data
@@ -895,13 +953,22 @@ impl<'a> Driver<'a> {
             types.dedup();
             let types = types.join("+");
             let mut d = step_desc(&applied);
-            d["replayed_client_data"] = got.render();
-            d["source_snapshot_restricted"] = want.render();
+            let mut where_text = String::new();
+            if big {
+                d["replayed_client_data"] = got.render_bounded(8);
+                d["source_snapshot_restricted"] = want.render_bounded(8);
+                let (list, text) = self.locate_differences(&got, &want, &snap, any_reset, ver);
+                d["differing_items"] = list;
+                where_text = text;
+            } else {
+                d["replayed_client_data"] = got.render();
+                d["source_snapshot_restricted"] = want.render();
+            }
             self.violation(
                 &format!("C06:client-data-differs-from-source-snapshot:v{}:{}:{}", ver, resp, types),
                 &format!(
-                    "after a completed {} step (version {}) the target's log applied to the previous data differs from the source snapshot {}:{} ({})",
-                    resp, ver, eod.session, eod.serial, classes
+                    "after a completed {} step (version {}) the target's log applied to the previous data differs from the source snapshot {}:{} ({}){}",
+                    resp, ver, eod.session, eod.serial, classes, where_text
                 ),
                 d,
             );
@@ -910,16 +977,19 @@ impl<'a> Driver<'a> {
         }
         // ---- the same log applied at targets that key the payload by the
         // library's own Eq / Ord / Hash
+        // (not for the large data sets: the `==`-only target is quadratic)
         let implicit_before = self.refs.implicit_maxlen_held;
-        for a in &applied {
-            if a.reset {
-                self.refs.clear();
-            }
-            for (action, payload) in &a.items {
-                self.refs.apply(*action, payload);
+        if !big {
+            for a in &applied {
+                if a.reset {
+                    self.refs.clear();
+                }
+                for (action, payload) in &a.items {
+                    self.refs.apply(*action, payload);
+                }
             }
         }
-        for (which, data, held) in self.refs.read_back() {
+        for (which, data, held) in if big { Vec::new() } else { self.refs.read_back() } {
             if data != want || held != want.len() {
                 let class_list = data.diff_classes(&want);
                 let mut types: Vec<&str> = class_list.iter().map(|c| c.split('-').next().unwrap_or(c)).collect();
@@ -942,11 +1012,13 @@ impl<'a> Driver<'a> {
                 return;
             }
         }
-        self.ctx.obs("reference_target_comparisons", 3);
+        if !big {
+            self.ctx.obs("reference_target_comparisons", 3);
+        }
         if has_maxlen_neighbours(&want) {
             self.ctx.obs("steps_with_same_prefix_and_asn_under_two_max_lengths", 1);
         }
-        if implicit_before > self.refs.implicit_maxlen_held && !any_reset {
+        if !big && implicit_before > self.refs.implicit_maxlen_held && !any_reset {
             self.ctx.obs("serial_steps_removing_an_origin_held_without_explicit_max_length", 1);
         }
         // ---- stored state
@@ -1040,6 +1112,41 @@ impl<'a> Driver<'a> {
         }
         ctx.obs_max("items_in_one_response", n_items as u64);
         ctx.obs_max("bytes_in_one_response", tap.bytes_to_client);
+        if let Some(plan) = &self.cfg.big {
+            // which size regions the large histories reached
+            let po = tap.payload_octets;
+            let rk = if any_reset { "reset" } else { "serial" };
+            ctx.obs("large_data_steps_completed", 1);
+            ctx.obs(&format!("large_data_steps_completed_v{}", ver), 1);
+            for (limit, name) in c06_big::REGIONS {
+                if po > limit {
+                    ctx.obs(&format!("large_v{}_{}_responses_over_{}", ver, rk, name), 1);
+                }
+            }
+            if n_items >= 65_536 {
+                ctx.obs(&format!("large_v{}_{}_responses_with_65536_items_or_more", ver, rk), 1);
+            }
+            for (limit, name) in [(4096u32, "4KiB"), (16_384, "16KiB"), (65_536, "64KiB"), (262_144, "256KiB"), (1 << 20, "1MiB")] {
+                if tap.max_payload_pdu > limit {
+                    ctx.obs(&format!("large_responses_with_a_single_pdu_over_{}", name), 1);
+                }
+            }
+            if tap.max_payload_pdu as usize > self.cfg.s_buf.min(self.cfg.c_buf) {
+                ctx.obs("large_responses_with_a_pdu_longer_than_a_pipe", 1);
+            }
+            ctx.obs_max("payload_octets_in_one_response", po);
+            ctx.obs_max("longest_payload_pdu", tap.max_payload_pdu as u64);
+            if po > 0 {
+                ctx.sig(&format!(
+                    "L v{} {} octets={} items={} longest-pdu={} shape={:?}",
+                    ver, resp, c06_big::octet_class(po), c06_big::count_class(n_items as u64), c06_big::pdu_class(tap.max_payload_pdu as u64), plan.shape
+                ));
+                ctx.sig(&format!(
+                    "M v{} {} octets={} client-pipe={} server-pipe={}",
+                    ver, rk, c06_big::octet_class(po), c06_big::pipe_class(self.cfg.c_buf), c06_big::pipe_class(self.cfg.s_buf)
+                ));
+            }
+        }
         let wrap = self.wrapped;
         if wrap {
             ctx.obs("completed_steps_after_serial_wrap", 1);
@@ -1107,7 +1214,9 @@ impl<'a> Driver<'a> {
             ctx.sig(&format!("C v{} {} after=[{}]", ver, resp, pre.join(",")));
         }
         // samples (literal histories with what was observed)
-        let kind_key = if udr_hit {
+        let kind_key = if big {
+            if any_reset { "large-data-reset" } else { "large-data-serial" }
+        } else if udr_hit {
             "update-during-response"
         } else if tap.downgrades > 0 {
             "downgrade"
@@ -1124,6 +1233,97 @@ impl<'a> Driver<'a> {
             let v = json!({"history": cfg_json(self.cfg), "trace": self.trace.clone()});
             ctx.sample(kind_key, || v);
         }
+    }
+
+    /// Where in the response the items are that the client lacks or has in
+    /// excess (large histories): position in the order the source presented
+    /// them and the octets of payload PDUs before them. Information for the
+    /// reader of a report, not part of the verdict.
+    fn locate_differences(&self, got: &Data, want: &Data, snap: &Snap, reset: bool, ver: u8) -> (Value, String) {
+        const CAP: usize = 12;
+        let mut missing: Vec<Item> = Vec::new();
+        let mut extra: Vec<Item> = Vec::new();
+        for k in want.origins.difference(&got.origins) {
+            missing.push(Item::Origin(*k));
+        }
+        for k in got.origins.difference(&want.origins) {
+            extra.push(Item::Origin(*k));
+        }
+        for k in want.keys.difference(&got.keys) {
+            missing.push(Item::Key(k.clone()));
+        }
+        for k in got.keys.difference(&want.keys) {
+            extra.push(Item::Key(k.clone()));
+        }
+        for (c, p) in &want.aspas {
+            if got.aspas.get(c) != Some(p) {
+                missing.push(Item::Aspa(*c, p.clone()));
+            }
+        }
+        for (c, p) in &got.aspas {
+            if want.aspas.get(c) != Some(p) {
+                extra.push(Item::Aspa(*c, p.clone()));
+            }
+        }
+        let (n_missing, n_extra) = (missing.len(), extra.len());
+        missing.truncate(CAP);
+        extra.truncate(CAP);
+        // the response as the source presented it
+        let presented: Vec<(bool, Item)> = if reset {
+            snap.items.iter().map(|p| (true, from_lib(p))).collect()
+        } else {
+            match self.source.last_diff() {
+                Some(d) => d.iter().map(|(p, a)| (matches!(a, Action::Announce), from_lib(p))).collect(),
+                None => Vec::new(),
+            }
+        };
+        let same = |a: &Item, b: &Item| match (a, b) {
+            (Item::Aspa(x, _), Item::Aspa(y, _)) => x == y,
+            _ => a == b,
+        };
+        let mut out: Vec<Value> = Vec::new();
+        let mut first_text = String::new();
+        let mut pdus = 0u64;
+        let mut octets = 0u64;
+        for (announce, item) in &presented {
+            let w = c06_big::wire_octets(item, ver);
+            if w == 0 {
+                continue;
+            }
+            for (list, what) in [(&missing, "the client lacks it"), (&extra, "the client has it in excess")] {
+                if list.iter().any(|m| same(m, item)) {
+                    if first_text.is_empty() {
+                        first_text = format!(
+                            "; {} item(s) lacking and {} in excess at the client; the first one affected was payload PDU number {} of the response, after {} octets of payload PDUs",
+                            n_missing, n_extra, pdus + 1, octets
+                        );
+                    }
+                    out.push(json!({
+                        "item": short(render_item(item)),
+                        "presented_by_the_source_as": if *announce { "announce" } else { "withdraw" },
+                        "outcome": what,
+                        "payload_pdu_number_in_response": pdus + 1,
+                        "payload_octets_before_it": octets,
+                        "its_octets": w,
+                    }));
+                }
+            }
+            pdus += 1;
+            octets += w;
+        }
+        if first_text.is_empty() {
+            first_text = format!("; {} item(s) lacking and {} in excess at the client", n_missing, n_extra);
+        }
+        let v = json!({
+            "lacking_at_the_client": n_missing,
+            "in_excess_at_the_client": n_extra,
+            "first_lacking": missing.iter().map(|i| short(render_item(i))).collect::<Vec<_>>(),
+            "first_in_excess": extra.iter().map(|i| short(render_item(i))).collect::<Vec<_>>(),
+            "where_the_source_presented_them": out,
+            "payload_pdus_presented": pdus,
+            "payload_octets_presented": octets,
+        });
+        (v, first_text)
     }
 
     async fn run_ops(&mut self) {
@@ -1147,6 +1347,7 @@ impl<'a> Driver<'a> {
                     }
                 }
                 Op::Reconnect { kind, v_c, cap } => self.connect(*kind, *v_c, *cap).await,
+                Op::Big(kind) => self.do_big_update(kind),
                 Op::Step => self.step(None).await,
                 Op::UpdateDuringResponse { yields, notify, changes } => self.step(Some((*yields, *notify, *changes))).await,
             }
@@ -1175,6 +1376,17 @@ fn abort_class(text: &str) -> String {
         }
     }
     out
+}
+
+/// Rendered items of the large histories can be very long (thousands of
+/// providers): keep the head.
+fn short(s: String) -> String {
+    if s.len() <= 300 {
+        s
+    } else {
+        let head: String = s.chars().take(280).collect();
+        format!("{}... ({} characters)", head, s.len())
+    }
 }
 
 fn rng_keep(rng: &mut Rng) -> bool {
@@ -1249,27 +1461,27 @@ pub fn run(ctx: &mut Ctx) {
     let triples = ctx.stage_budget((96_000, 2_400_000), 96_000, 480, 0);
     run_laws(ctx, triples);
     let max_ops: u64 = if light { 5 } else { 14 };
-    let mut rng = ctx.rng("histories");
     let mut steps = 0u64;
     let mut ok = 0u64;
     let mut histories = 0u64;
-    for i in 0..n {
-        let seed = rng.next_u64();
-        let cfg = gen_cfg(seed, max_ops, light);
-        if i % 64 == 0 {
-            ctx.breadcrumb(&format!("history {} seed {}: {}", i, seed, cfg_json(&cfg)));
-        }
+    let mut large_steps = 0u64;
+    let mut large_ok = 0u64;
+    let mut exec = |ctx: &mut Ctx, cfg: &Cfg| {
         take_last_panic();
         let before = ctx.violation_count();
-        let res = crate::core::catch(|| run_history(ctx, &cfg));
+        let res = crate::core::catch(|| run_history(ctx, cfg));
         match res {
             Ok(s) => {
                 steps += s.steps;
                 ok += s.ok;
+                if cfg.big.is_some() {
+                    large_steps += s.steps;
+                    large_ok += s.ok;
+                }
             }
             Err(text) => {
                 let sig = format!("C06:panic:history:{}", panic_location(&text));
-                ctx.violation(&sig, &format!("panic while running a history: {}", text), cfg_json(&cfg));
+                ctx.violation(&sig, &format!("panic while running a history: {}", text), cfg_json(cfg));
             }
         }
         // a panic inside a spawned task (server connection) is swallowed by
@@ -1277,14 +1489,55 @@ pub fn run(ctx: &mut Ctx) {
         if let Some(text) = take_last_panic() {
             if ctx.violation_count() == before {
                 let sig = format!("C06:panic:task:{}", panic_location(&text));
-                ctx.violation(&sig, &format!("panic inside a runtime task: {}", text), cfg_json(&cfg));
+                ctx.violation(&sig, &format!("panic inside a runtime task: {}", text), cfg_json(cfg));
             }
         }
         histories += 1;
+    };
+    // histories over large data sets: a matrix of size class x version x
+    // shape walked by index, every index run by exactly one shard (native and
+    // ASan only: a response of a megabyte takes hours under Miri)
+    let (large_total, classes): (u64, u64) = match (ctx.stage, ctx.tier) {
+        (Stage::Native, Tier::Quick) => (150, 5),
+        (Stage::Native, Tier::Thorough) => (720, 6),
+        (Stage::Asan, _) => (45, 5),
+        _ => (0, 5),
+    };
+    let mut large = 0u64;
+    for index in 0..large_total {
+        if !ctx.mine(index) {
+            continue;
+        }
+        let seed = Rng::derive(ctx.seed, &["C06", "large-data-history"], &[index]).next_u64();
+        let cfg = c06_big::gen_big_cfg(index, seed, classes);
+        ctx.breadcrumb(&format!("large-data history {} seed {}: {}", index, seed, cfg_json(&cfg)));
+        exec(ctx, &cfg);
+        large += 1;
+    }
+    if large_total > 0 {
+        ctx.obs("large_data_histories", large);
+    }
+    let mut rng = ctx.rng("histories");
+    for i in 0..n {
+        let seed = rng.next_u64();
+        let cfg = gen_cfg(seed, max_ops, light);
+        if i % 64 == 0 {
+            ctx.breadcrumb(&format!("history {} seed {}: {}", i, seed, cfg_json(&cfg)));
+        }
+        exec(ctx, &cfg);
     }
     ctx.obs("histories", histories);
     ctx.obs("steps_attempted", steps);
     ctx.obs("steps_completed", ok);
+    if large_total > 0 {
+        ctx.obs("large_data_steps_attempted", large_steps);
+        if large_ok * 2 < large_steps {
+            ctx.notes.push(format!(
+                "C06: only {} of {} steps over large data sets completed; the property is conditional on completion, so the large responses were observed too little",
+                large_ok, large_steps
+            ));
+        }
+    }
     if steps > 0 && ok * 2 < steps {
         ctx.notes.push(format!(
             "C06: only {} of {} steps completed; the property is conditional on completion, so this run observed too little",
